@@ -40,6 +40,47 @@ chk("C15", "exploration", "exact-rational (math/big) reference monitor on random
     "Every boundary produced by ApplyLinearCorrection is compared with the exact rational value (<= 1 us), together with order preservation, length scaling, a1->d1, a2->d2 and untouched content.",
     "Slopes in 0.5..2 and boundaries in [0,24h]. " + TRUST, "DESIGN.md §2 C15")
 
+chk("C01", "exploration", "reference-model monitor: generated ground truth -> renderings -> library reader; model -> library writer -> library reader and independent decoder",
+    "A random cue list is rendered in the syntactic variants the format tolerates and the reader's result is compared rune by rune (text + markup) with the list; written documents are decoded by the harness's own SubRip decoder and by the library. "
+    "Exploration is the right level: the input space is a grammar, the oracle is a model the library does not share code with, and the defects are interactions of rendering choices.",
+    "Quantifier restrictions listed in the evidence assumptions (no white space at line edges, no '-->' in text ...). " + TRUST, "DESIGN.md §2 C01")
+chk("C02", "exploration", "reference-model monitor (token-stream interpreter) in both directions + independent WebVTT decoder",
+    "Ground-truth models with regions, settings, voices, tag stacks, inline timestamps, comments, STYLE blocks and timestamp maps are rendered and read; the writer's output is decoded by an independent decoder that also enforces 'regions defined before use' and proper nesting.",
+    "Colour classes derived from TTMLColor are outside the statement and left unset. " + TRUST, "DESIGN.md §2 C02")
+chk("C03", "exploration", "reference-model monitor with exact rational time oracle (math/big) + encoding/xml token-walk decoder",
+    "Every time-expression syntax is generated with its exact rational meaning; style forests, regions, attributes, br placement, namespaces and indentation are varied; the writer is checked with any indent option through an independent XML decoder and the library reader.",
+    "+-1 us is allowed where the library goes through float64 (frames, ticks, fractional offsets). " + TRUST, "DESIGN.md §2 C03")
+chk("C04", "exploration", "reference-model monitor with Format-driven independent decoder + write/read/write fix-point check",
+    "Models are rendered with permuted and subset Format lines, section spellings, colour radices, junk, comments and unknown sections; the writer is checked for v4 and v4+, heterogeneous styles, and byte-identical rewrite.",
+    "Text is the last event column; no commas outside text. " + TRUST, "DESIGN.md §2 C04")
+chk("C05", "exploration", "reference-model monitor: own GSI/TTI encoder and decoder, own transcription of the EBU Latin table, exhaustive diacritic x letter enumeration",
+    "Files produced by the harness's encoder (all GSI fields, 25/30 fps, display standards 0/1/2, programme-start offsets, user-data blocks, style/colour/box codes) are read with both option values; the writer is checked with STL, absent and inherited metadata, file size, both decoders and timecode stability. Two recorded findings (pinned by goldens) are matched by exact alternative predictions.",
+    "Text in the Latin repertoire and within 112 bytes. " + TRUST, "DESIGN.md §2 C05")
+chk("C06", "exploration", "reference-model monitor: page schedule -> transport stream built by the harness's own TS/PES/teletext encoders -> expected cue list with frozen character tables",
+    "Streams with distractor pages, serial/parallel modes, enhancement packets, parity and Hamming errors, other PIDs and table repetition are generated from a schedule whose cue list is known; the reader's result must equal it.",
+    "The character tables are a frozen copy reviewed once (see DESIGN §2 C06). " + TRUST, "DESIGN.md §2 C06")
+chk("C07", "exploration", "pipeline monitor: generated source documents x all 42 format pairs x operation sequences vs composed executable specifications, through the file API and the CLI binary",
+    "Every (source, destination) pair is driven with styled, metadata-bearing documents, random-case extensions and 0..4 operations; the destination is re-read and compared with the composed specifications truncated to its resolution. One recorded finding (STL destination text) is matched exactly.",
+    "Texts from an alphabet all involved formats represent; non-negative times. " + TRUST, "DESIGN.md §2 C07")
+chk("C08", "exploration", "crash/hang monitor: recover() + child-process exit status + stall detector with isolated re-runs, over structure-aware mutations and hostile values of the public types",
+    "200 k (thorough 4 M) mutated documents and hostile cue lists are fed to all readers, Open and all writers; any recovered panic, worker death or confirmed stall is a violation with the input as witness; scaling is measured in the thorough tier.",
+    "'Never hangs' is bounded progress; panics whose innermost frames are inside go-astits are excluded as the statement says. " + TRUST, "DESIGN.md §2 C08")
+chk("C16", "exploration", "grammar + independent decoder + reader + rewrite monitor over batched documents; exhaustive millisecond sweep in the thorough tier",
+    "Through the public writers and readers only, every rendered boundary must match the format grammar, equal floor(instant) at the format's resolution, be read back as that value and be rewritten identically; thorough enumerates every millisecond of [0,24h) and every centisecond/frame boundary +-1 ns.",
+    "Instants below 100 h (24 h for STL). " + TRUST, "DESIGN.md §2 C16")
+chk("C17", "exploration", "schedule-injecting io.Reader monitor with event log: every single split point, one-byte reads, data-with-EOF, zero-length reads, buffer-aligned splits",
+    "Each document is parsed under the all-at-once delivery and under hundreds to thousands of other delivery schedules; results must be DeepEqual (or both fail).",
+    "Error text is not compared. " + TRUST, "DESIGN.md §2 C17")
+chk("C18", "fault_enumeration", "fault-injecting io.Reader / io.Writer monitors enumerating the fault offset, plus kernel faults (EISDIR, /dev/full, strace ENOSPC injection) on the file helpers and the CLI",
+    "For every document and every offset the stream (or destination) fails once there; the call must return a non-nil error. Fault enumeration is the right level: the quantifier is the fault position, which is finite per document and enumerated.",
+    "A fault is a non-EOF error; for TTML only up to the end of the root element. " + TRUST, "DESIGN.md §2 C18")
+chk("C19", "exploration", "determinism monitor: repeated, permuted, cross-process and clock-varied writes with pointer-graph-aware snapshots and the state-digest hook",
+    "Each list is written 50 times per writer, in 24..120 writer orders, under two clocks and in fresh processes; outputs must be identical and the list untouched.",
+    "Map iteration order is re-randomised by the runtime on every range. " + TRUST, "DESIGN.md §2 C19")
+chk("C20", "exploration", "Go race detector (-race build of the monitor) + sequential-equality oracle + state-digest canary, with observed-overlap evidence",
+    "Rounds of 2..32 goroutines run independent readers, writers and transformations released by a barrier under GOMAXPROCS 2/4/16; a race report, a result differing from the solo run or a changed state digest is a violation; rounds without observed overlap do not count.",
+    "The race detector sees only accesses that happened. " + TRUST, "DESIGN.md §2 C20")
+
 ALL = ["C%02d" % i for i in range(1, 21)]
 
 def main():
